@@ -41,6 +41,7 @@ type TierOpts struct {
 	Livelock    bool     `json:"unwind_is_livelock"`
 	ChanScale   int      `json:"chan_scale"`
 	ChanScaleMin int     `json:"chan_scale_min"`
+	MakeCap     int      `json:"make_cap"`
 	WallS       int      `json:"wall_s"`
 	Skip        bool     `json:"skip"`
 	Params      map[string]int `json:"params"`
@@ -370,7 +371,7 @@ func cmdRun(args []string) int {
 				continue
 			}
 			opts := interp.Options{Workers: nw, Solver: "z3", TimeoutMs: 10000, Unwind: 64, StepBudget: 20_000_000, Trace: *trace,
-				KnownPanicSites: sites, Explore: to.Explore, Livelock: to.Livelock, SchedBudget: to.SchedBudget, ChanScale: to.ChanScale, ChanScaleMin: to.ChanScaleMin, Params: to.Params}
+				KnownPanicSites: sites, Explore: to.Explore, Livelock: to.Livelock, SchedBudget: to.SchedBudget, ChanScale: to.ChanScale, ChanScaleMin: to.ChanScaleMin, MakeCap: to.MakeCap, Params: to.Params}
 			if *tier == "thorough" {
 				opts.TimeoutMs = 60000
 			}
@@ -484,6 +485,10 @@ func cmdRun(args []string) int {
 					violationLines = append(violationLines, line)
 					fmt.Println(line)
 					fmt.Printf("  harness=%s kind=%s id=%s msg=%s native=%s\n", h.Func, v.Kind, v.ID, trunc(v.Msg, 300), detail)
+				} else if strings.HasPrefix(detail, "native build failed") {
+					// a tooling failure, not a verdict: never let it turn a counterexample into a pass
+					fmt.Fprintf(os.Stderr, "BROKEN harness=%s: counterexample could not be replayed (%s) replay=%s\n", h.Func, detail, path)
+					broken = true
 				} else if v.Kind == "livelock" {
 					fmt.Fprintf(os.Stderr, "harness %s: loop bound exceeded (%s) but non-termination not reproduced natively (%s): inconclusive\n", h.Func, trunc(v.Msg, 200), detail)
 					allExhaustive = false
